@@ -1084,7 +1084,7 @@ def run(chk: Check):
     traces = []
     # receive-heavy, depth bounded
     traces += _b1(chk, dict(base, RelPids="{1,2}", UnrelPids="{3}", MaxRcv=2, MaxSends=2, MaxUnrel=1,
-                            Depth=5 if quick else 6), "recv", 97 if quick else 97, max_pairs=12000 if quick else 60000)
+                            Depth=5 if quick else 6), "recv", 97 if quick else 97, max_pairs=8000 if quick else 60000)
     # timer-heavy, unbounded depth: budget exhaustion, retransmission counts
     traces += _b1(chk, dict(base, RelPids="{}", UnrelPids="{1}", MaxRcv=1, MaxSends=2, MaxUnrel=0, MaxAcks=1, Depth=0),
                   "timer", 17 if quick else 7, max_pairs=8000 if quick else 0)
@@ -1098,12 +1098,12 @@ def run(chk: Check):
                             MaxPings=2 if quick else 3, Oldest="{0,1,2,3}", Depth=7 if quick else 9), "ping", 11)
     # a subscribe_async() consumer that does not read while packets arrive, then drains (backlog bound, if any, set to 3)
     traces += _b1(chk, dict(base, RelPids="{1}", UnrelPids="{2}", MaxRcv=4, MaxSends=0, MaxUnrel=0, MaxAcks=0, Ticks="{}",
-                            MaxSubs=1, SubKinds='{"asyncq"}', Depth=7 if quick else 8), "slow-consumer", 13)
+                            MaxSubs=1, SubKinds='{"asyncq"}', Depth=7 if quick else 8), "slow-consumer", 13, max_pairs=3000 if quick else 0)
     # the client's own resend loop drives the clock: two reliable sends of different ages on a client-built circuit whose
     # handshake completes; a small budget (set on the resend records) so that one send's exhaustion is followed by more
     ltraces = _b1(chk, dict(base, Budget=2, SetBudget=2, RelPids="{}", UnrelPids="{1}", MaxRcv=1, MaxSends=2, MaxUnrel=0, MaxAcks=1,
                             Ticks="{}", LoopTicks="{%d, %d}" % (half, every), StartStates='{"pending"}', Lifecycle="TRUE",
-                            Depth=8 if quick else 10), "resendloop", 23, max_pairs=8000 if quick else 0)
+                            Depth=8 if quick else 10), "resendloop", 23, max_pairs=5000 if quick else 0)
     _b2(chk, ltraces, "b1-histories-resendloop", 2, every)
     # ... and the default budget with nothing else happening
     traces += _b1(chk, dict(base, RelPids="{}", UnrelPids="{}", MaxRcv=0, MaxSends=2, MaxUnrel=0, MaxAcks=0, Ticks="{}",
@@ -1115,7 +1115,7 @@ def run(chk: Check):
     # life of the circuit: created-not-yet-alive (as the endpoint makes it) or bare-alive, handshake completes, disconnect
     traces += _b1(chk, dict(base, RelPids="{1}", UnrelPids="{2}", MaxRcv=2, MaxSends=1 if quick else 2, MaxUnrel=1, MaxAcks=1,
                             Ticks="{%d}" % every, StartStates='{"pending", "alive"}', Lifecycle="TRUE", Depth=7 if quick else 8),
-                  "lifecycle", 37, max_pairs=6000 if quick else 0)
+                  "lifecycle", 37, max_pairs=4000 if quick else 0)
     # de-duplication memory of 2 (3) IDs: eviction, duplicates of remembered and of forgotten IDs
     b1_traces = traces
     wtraces = _b1(chk, dict(base, Window=2, RelPids="{1,2,3}", UnrelPids="{4}", MaxRcv=3, MaxSends=0, MaxUnrel=0, MaxAcks=0,
